@@ -26,7 +26,7 @@ def verdicts (m : Module) (o : Out) : List (Nat × Nat × Option String × Optio
 
 def check (c : Ctx) (r : Run) : Verdict :=
   let (cmp, _) := CheckGen.compare c r
-  let corr := CheckGen.corrFor cmp ["group-numbers", "group-entry-types"]
+  let corr := CheckGen.corrFor cmp ["group-numbers", "group-entry-types", "pipeline-groups"]
   match c.module, r.real with
   | some m, .ok o =>
     if c.valid && !resourceShapesB m then
@@ -34,7 +34,9 @@ def check (c : Ctx) (r : Run) : Verdict :=
     let vs := verdicts m o
     let bad := vs.filter fun v => v.2.2.1.isSome || v.2.2.2.isSome
     let spec : Status :=
-      if decide (C02Ok m o) then .ok else
+      if !decide (C02PipelineOk m o) then
+        .fail s!"pipeline#group-not-at-own-index: create_pipeline_layout lists the group layouts as {o.pipelineGroups}; a resource variable's @group is not at its own index"
+      else if decide (C02Ok m o) then .ok else
       match bad with
       | (g, b, some e, _) :: _ => .fail s!"binding#{e}: @group({g}) @binding({b}) check_binding_use rejects the generated entry"
       | (g, b, none, some e) :: _ => .fail s!"bgl#{e}: @group({g}) @binding({b}) create_bind_group_layout rejects the generated entry"
